@@ -26,6 +26,7 @@ def alpn_extra(prop, tier, seed):
 
 def alpn_family():
     return dict(
+        corrupt=lambda l: l["obs"].update(rt=False, panic=False) if l["op"]["op"] == "RT" else l["obs"].update(panic=True),
         driver="alpn", trace_module="AlpnTrace.tla",
         trace_consts={"Budget": "214", "Radix": "10", "Decoder": '"dash"'},
         level="model_checking", fixed=None,
@@ -179,13 +180,35 @@ class _Flat(dict):
     pass
 
 
+def split_extra(prop, tier, seed):
+    """every registry (subset of sp1, sp2, __AUTH__, __UNAUTH__; native flags on a rotating subset) x a fixed client battery"""
+    import itertools
+    rnd = random.Random(seed)
+    names = ["sp1", "sp2", "__AUTH__", "__UNAUTH__"]
+    clients = [("node", []), ("node", ["sp1"]), ("node", ["zz", "sp2"]), ("node", ["__UNAUTH__"]), ("node", ["__AUTH__", "sp1"]), ("node", ["zz"]),
+               ("base", []), ("base", ["sp1"]), ("base", ["__AUTH__"]), ("base", ["sp2", "__UNAUTH__"]), ("base", ["zz"]), ("fetch", ["sp1"])]
+    regs = []
+    for k in range(len(names) + 1):
+        for sub in itertools.combinations(names, k):
+            regs.append(list(sub))
+    if tier == "quick":
+        regs = [r for i, r in enumerate(regs) if i % 2 == 0]
+    out = []
+    for i, reg in enumerate(regs):
+        native = [n for j, n in enumerate(reg) if (i + j) % 3 == 0]
+        ops = [dict(op="Config", reg=reg, native=native)] + [dict(op="Client", kind=k, extras=e) for (k, e) in clients] + [dict(op="CloseBase")]
+        out.append(dict(id="reg%d" % i, ops=ops))
+    return out
+
+
 def split_family():
     fam = dict(
         driver="split", trace_module="SplitTrace.tla", trace_consts={"Specific": '{"sp1","sp2"}'},
         level="model_checking", fixed="fixed/split.ndjson", materialise=split_materialise,
         nontrivial=lambda prop, l: l["op"]["op"] == "Client",
         mc=dict(quick=[("MC_Split.tla", "MC_Split.cfg")], thorough=[("MC_Split.tla", "MC_Split.cfg")]),
-        gen=[dict(module="SplitGen.tla", cfg="SplitGen_a.cfg", depth=9, num=dict(quick=60, thorough=1200), tag="a", beh_cfg={})],
+        gen=[dict(module="SplitGen.tla", cfg="SplitGen_a.cfg", depth=9, num=dict(quick=40, thorough=1200), tag="a", beh_cfg={})],
+        extra=split_extra,
         rule={"*": "TLC draws a registry (any subset of two specific names, __AUTH__, __UNAUTH__, each possibly with native connections) and a sequence of clients (authenticated node with 0-2 extra protocol names incl. the reserved ones, base-TLS client offering arbitrary names, fetch-only client), then closes the base listener; a real SplitListener over a real InterceptingListener is driven accordingly and every delivery is judged by TLC"},
         assumptions=["a connection not handed out by any sub-listener within 400 ms counts as closed",
                      "an application whose own base TLS configuration advertises a library-prefixed protocol is outside the quantifier"],
@@ -236,6 +259,8 @@ def seal_extra(prop, tier, seed):
 
 def seal_family(prop):
     return dict(
+        corrupt=(lambda l: l.update(res="ok-different")) if prop == "C11" else
+                (lambda l: l["obs"].update(loadNone="equal", clear=["NodeCredentials:node.cert.priv"])),
         driver="seal", trace_module="SealTrace.tla", trace_consts=SEAL_CONSTS, level="model_checking", fixed=None,
         materialise=seal_materialise,
         nontrivial=lambda p, l: (l["op"]["op"] == "Crypt") if p == "C11" else (l["op"]["op"] in ("Rec", "Flow")),
@@ -301,6 +326,7 @@ def enrol_extra(prop, tier, seed):
 
 def enrol_family():
     return dict(
+        corrupt=lambda l: l["obs"].update(refused=False) if l["op"]["subst"] != "none" else l["obs"].update(echo=False),
         driver="enrol", trace_module="EnrollTrace.tla", trace_consts={}, trace_spec="TSpec", level="model_checking", fixed=None,
         nontrivial=lambda p, l: l["res"] in ("issued", "subst"),
         mc=dict(quick=[("Enroll.tla", "MC_Enroll.cfg")], thorough=[("Enroll.tla", "MC_Enroll.cfg")]),
@@ -356,6 +382,7 @@ def iso_family():
     mcs = [("MC_OptSlice.tla", "MC_OptSlice_%s_%d_perconn.cfg" % (k, sp)) for k in ("TokTok", "TokAuth", "AuthAuth", "AuthRej") for sp in (0, 2)]
     wit = [("MC_OptSlice.tla", "MC_OptSlice_w_app.cfg", "NoSharedWrite"), ("MC_OptSlice.tla", "MC_OptSlice_w_listener.cfg", "Isolation")]
     return dict(
+        corrupt=lambda l: l["obs"].update(sentinel=False),
         driver="iso", trace_module="OptSliceTrace.tla", trace_consts={}, level="model_checking", fixed=None,
         nontrivial=lambda p, l: l["obs"]["parked"] or l["op"]["op"] == "Mix",
         mc=dict(quick=mcs, thorough=mcs), witness=dict(quick=wit, thorough=wit),
